@@ -42,4 +42,10 @@ CLAIMED['C19'] = dict(
     technique='CrossHair-engine exhaustive enumeration (z3-decided selectors: shape, cut mask, separator) of Generic.concat against a text-level fragment model and structural snapshots',
     design='5 C19')
 
+CLAIMED['C02'] = dict(
+    text=BMC + 'C02: (a) every spine-operator layout inside the depth bound (solver-enumerated selector over the layouts generated by the reference spine-path model) is imported by the real importers and the tree is compared cell by cell with the model (stages, order, parent cell, header, spine id); (d) Importer.run is executed on SYMBOLIC data-cell strings behind a stubbed spine importer, showing that structure never depends on cell text; (b) the csv line reader on every string over a quote/comma/space/backslash/non-ASCII alphabet (realised at the C boundary); (c) surplus cells rejected.',
+    note=NOTE + 'csv.reader is a C boundary: C02.b is an enumeration of realised strings, labelled so. Global comments inside spines, *+ and *x, several header rows are outside the claim.',
+    technique='CrossHair-engine symbolic execution of Importer.run (symbolic cell strings, stub spine importer) + z3-enumerated layout/string selectors against a reference spine-path model',
+    design='5 C02')
+
 PENDING_REASON = 'check under construction in this session (to be claimed; see DESIGN.md section 5)'
